@@ -462,11 +462,15 @@ impl FileManager {
             fs::remove_file(&index_path).wrap_err_with(|| {
                 format!("failed to remove index file '{}'", index_path.display())
             })?;
+            #[cfg(kahflane_turdb_verif)]
+            crate::verif::crash_point("fm.drop_table.index_removed");
         }
 
         let table_path = self.table_file_path(schema, table);
         fs::remove_file(&table_path)
             .wrap_err_with(|| format!("failed to remove table file '{}'", table_path.display()))?;
+        #[cfg(kahflane_turdb_verif)]
+        crate::verif::crash_point("fm.drop_table.removed");
 
         Ok(())
     }
